@@ -589,7 +589,10 @@ func runCheck(o checkOpts) int {
 		"assumptions": standingAssumptions(),
 	}
 	b, _ := json.MarshalIndent(ev, "", " ")
-	os.WriteFile(evPath, append(b, '\n'), 0o644)
+	if os.Getenv("ZVC_NOEVIDENCE") == "" {
+		// (set while a seeded change is applied to /repo: the committed evidence must describe the unchanged tree)
+		os.WriteFile(evPath, append(b, '\n'), 0o644)
+	}
 	fmt.Printf("zvc: property %s tier %s: %d obligations, %d discharged, %d canaries, %d known findings, %d violations, %.1fs\n",
 		prop, o.tier, nClaimed, nDischarged, nCanary, len(kfLines), violations, time.Since(start).Seconds())
 	if violations > 0 {
